@@ -6,7 +6,7 @@ From PM Require Import Model.Prelude Model.Domain Model.Constraint Model.Automat
   Model.DomString Model.DomMatrix Cert.LabCheck Cert.CharCert Cert.ExampleAut
   Proofs.RunSound Proofs.LawfulDomains Proofs.BindMapMatrixProofs
   Spec.Occ Proofs.OccProofs Proofs.CellsProofs Proofs.OccString Proofs.OccMatrix
-  Model.DomPGKeys Model.DomPG Cert.PGCert Proofs.PGLawful.
+  Model.DomPGKeys Model.DomPG Model.DomPGPattern Cert.PGCert Proofs.PGLawful Proofs.PGEmbed.
 
 (** generic over the domain: lawful binding maps, any host, any execution *)
 Theorem c01_run_sound :
@@ -137,3 +137,22 @@ Print Assumptions c01_string.
 Print Assumptions c01_matrix.
 Print Assumptions c01_matrix_pinned_refuted.
 Print Assumptions c01_portgraph_run_sound.
+
+(** Port graphs, down to embeddings: with the pattern side modelled as well
+    (Model/DomPGPattern.v, compared with try_to_constraint_vec) and the per-pattern
+    validation [lines_cover], every reported match maps every link of its pattern
+    to a link of the host and distinct pattern nodes to distinct host nodes. *)
+Theorem c01_portgraph_embedding :
+  forall (A : automaton pgkey pgpred) (L : labelling)
+         (pats : list (pghost * N)) (full : list (list pgconstraint * list (N * pgkey))),
+    Forall2 (fun pr f => pg_cvec_full (fst pr) (snd pr) = Ok f /\ lines_cover (fst pr) (snd pr) = true) pats full ->
+    lab_ok pg_dom (fun _ => true) pg_atoms A L (map fst full) = true ->
+    forall (h : pghost) (fuel : nat) (ms : list (N * pgmap)),
+      run pg_dom fuel A h = Ok ms ->
+      forall pid m, In (pid, m) ms ->
+        exists P root cs nk, nth_error pats (N.to_nat pid) = Some (P, root) /\ nth_error full (N.to_nat pid) = Some (cs, nk)
+          /\ (forall a oa b ib, In (a, oa, b, ib) (pg_links P) ->
+                exists va vb, image m nk a = Some va /\ image m nk b = Some vb /\ In (va, oa, vb, ib) (pg_links h))
+          /\ Dist m nk.
+Proof. exact pg_run_embeds. Qed.
+Print Assumptions c01_portgraph_embedding.
